@@ -408,7 +408,9 @@ def run(prop, tier, replay):
                 ls = open(tf).read().splitlines()
                 i0 = max(i for i, x in enumerate(ls) if x.startswith('["Begin"'))
                 samples.append({"family": "conc", "config": info["q"], "events": [json.loads(x) for x in ls[i0:]]})
-    if not replay:
+    # vacuity is judged only on a run without rejected events (a rejected scenario is skipped from the
+    # rejection on, which may itself starve a counter)
+    if not replay and not out.violations:
         for k, what in (("Issue", "no read was issued"), ("Resolved", "no request resolved"), ("Close", "no close"),
                         ("Pending", "no pending observation"), ("sc_bypass", "priority bypass never taken"),
                         ("sc_blocked", "backpressure never held a read back"), ("sc_cancel", "no request cancelled by close"),
